@@ -403,4 +403,102 @@ example :
     s.listeners = [⟨1, .normal, [[], [(1, 10)], [(2, 20)], []]⟩, ⟨2, .raises, [[], [(1, 10)], [(2, 20)], []]⟩] ∧
     s.gone = [⟨3, .removesSelf, [[]]⟩] := by decide +kernel
 
+/-! ## Overlapping calls: the last effect on a characteristic wins, whatever is in flight -/
+
+theorem ostep_wanted_mem (s : OSt) (e : OEv) (x : Ch) :
+    x ∈ (ostep s e).wanted ↔ (match effectOn x e with | some b => b = true | none => x ∈ s.wanted) := by
+  cases e with
+  | addWanted cs =>
+    simp only [ostep, effectOn, mem_union]
+    by_cases h : cs.contains x
+    · have hx : x ∈ cs := by simpa using h
+      simp [h, hx]
+    · have hx : x ∉ cs := by simpa using h
+      simp [h, hx]
+  | removeWanted cs =>
+    simp only [ostep, effectOn, mem_diff]
+    by_cases h : cs.contains x
+    · have hx : x ∈ cs := by simpa using h
+      simp [h, hx]
+    · have hx : x ∉ cs := by simpa using h
+      simp [h, hx]
+  | accReg cs => simp [ostep, effectOn]
+  | accUnreg cs => simp [ostep, effectOn]
+  | drop => simp [ostep, effectOn]
+  | reconnect => simp [ostep, effectOn]
+
+theorem lastEffect_append (x : Ch) (a b : List OEv) :
+    lastEffect x (a ++ b) = (match lastEffect x b with | some v => some v | none => lastEffect x a) := by
+  simp only [lastEffect, List.reverse_append, List.findSome?_append]
+  cases List.findSome? (effectOn x) b.reverse <;> rfl
+
+theorem lastEffect_single (x : Ch) (e : OEv) : lastEffect x [e] = effectOn x e := by
+  simp only [lastEffect, List.reverse_cons, List.reverse_nil, List.nil_append, List.findSome?_cons,
+    List.findSome?_nil]
+  cases effectOn x e <;> rfl
+
+theorem lastEffect_mem (x : Ch) (l : List OEv) (v : Bool) (h : lastEffect x l = some v) :
+    ∃ e ∈ l, effectOn x e = some v := by
+  unfold lastEffect at h
+  obtain ⟨e, he, hv⟩ := List.exists_of_findSome?_eq_some h
+  exact ⟨e, by simpa using he, hv⟩
+
+/-- **Last effect wins**: after ANY history of overlapping calls a characteristic is in `subscriptions` iff the
+    last call-effect naming it (the start of a subscribe, the return of an unsubscribe) was a subscribe's - or,
+    if none named it, iff it was there before.  Nothing else (requests arriving, drops, reconnections, effects of
+    calls on other characteristics) matters. -/
+theorem C12_overlap_last_effect_wins (evs : List OEv) (s : OSt) (x : Ch) :
+    x ∈ (orun s evs).wanted ↔ (match lastEffect x evs with | some b => b = true | none => x ∈ s.wanted) := by
+  induction evs generalizing s with
+  | nil => simp [orun, lastEffect]
+  | cons e es ih =>
+    have hrun : orun s (e :: es) = orun (ostep s e) es := rfl
+    have hl := lastEffect_append x [e] es
+    simp only [List.singleton_append] at hl
+    rw [hrun, ih, hl, lastEffect_single]
+    cases lastEffect x es with
+    | some b => simp
+    | none => simpa using ostep_wanted_mem s e x
+
+/-- **A subscribe issued while other calls are in flight is kept**: if `subscribe(cs)` starts at any point of a
+    history and no unsubscribe naming `x ∈ cs` RETURNS afterwards, `x` is in `subscriptions` at the end - in
+    particular when an `unsubscribe(X)` with `x ∉ X` was issued earlier and returns later. -/
+theorem C12_overlap_concurrent_subscribe_kept (pre post : List OEv) (s : OSt) (cs : List Ch) (x : Ch)
+    (hx : x ∈ cs) (hpost : ∀ e ∈ post, effectOn x e ≠ some false) :
+    x ∈ (orun s (pre ++ [.addWanted cs] ++ post)).wanted := by
+  rw [C12_overlap_last_effect_wins, lastEffect_append, lastEffect_append, lastEffect_single]
+  have hadd : effectOn x (.addWanted cs) = some true := by
+    simp [effectOn, hx]
+  cases hp : lastEffect x post with
+  | none => simp [hadd]
+  | some b =>
+    cases b with
+    | true => simp
+    | false =>
+      obtain ⟨e, he, hv⟩ := lastEffect_mem x post false hp
+      exact absurd hv (hpost e he)
+
+/-- **A reconnection asks for exactly what is wanted at that moment** - including what subscribes still in
+    flight have added and excluding only what unsubscribes that already returned have removed. -/
+theorem C12_overlap_reconnect_registers_wanted (s : OSt) (x : Ch) :
+    x ∈ (ostep s .reconnect).registered ↔ x ∈ s.wanted := by
+  simp [ostep, mem_union]
+
+/-- sequential calls are the special case: on a connected pairing `subscribe` / `unsubscribe` of the base
+    automaton change `wanted` exactly as the start of a subscribe / the return of an unsubscribe do here -/
+theorem C12_overlap_extends_sequential (s : St) (cs : List Ch) :
+    (step s (.subscribe cs)).wanted = (ostep ⟨s.wanted, s.registered⟩ (.addWanted cs)).wanted ∧
+    (step s (.unsubscribe cs)).wanted = (ostep ⟨s.wanted, s.registered⟩ (.removeWanted cs)).wanted := by
+  constructor
+  · simp only [step, ostep]; split <;> rfl
+  · simp only [step, ostep]; split <;> rfl
+
+/-- non-vacuity, the schedule of a snapshot bug: `unsubscribe({2.20})` is unanswered, `subscribe({1.10, 1.11})`
+    starts and is registered by the accessory, then the unsubscribe returns; after a drop and a reconnection the
+    accessory is asked again for 1.10 and 1.11 -/
+example :
+    let s := orun { wanted := [(2, 20)], registered := [(2, 20)] }
+      [.accUnreg [(2, 20)], .addWanted [(1, 10), (1, 11)], .accReg [(1, 10), (1, 11)], .removeWanted [(2, 20)], .drop, .reconnect]
+    s.wanted = [(1, 10), (1, 11)] ∧ s.registered = [(1, 10), (1, 11)] := by decide
+
 end HapVerif.Subs
